@@ -31,12 +31,16 @@ SAFETY = 8.0
 
 
 # ------------------------------------------------------------------------------------------------
-def _spaces(nq, nr, p, rmin=0.5, rmax=6.0):
+def _spaces(nq, nr, p, rmin=0.5, rmax=6.0, pr=None):
+    """theta space of degree p, radial space of degree pr (default p); unequal degrees use the general path in both
+    directions (Spline2D wants both or neither space on the uniform-cubic path)"""
     from pygyro.splines.splines import make_knots, BSplines
+    pr = p if pr is None else pr
     qb = np.linspace(0, 2 * np.pi, nq + 1)
-    rb = np.linspace(rmin, rmax, nr - p + 1)
-    bq = BSplines(make_knots(qb, p, True), p, True, True)
-    br = BSplines(make_knots(rb, p, False), p, False, True)
+    rb = np.linspace(rmin, rmax, nr - pr + 1)
+    uni = (pr == p)
+    bq = BSplines(make_knots(qb, p, True), p, True, uni)
+    br = BSplines(make_knots(rb, pr, False), pr, False, uni)
     return bq, br
 
 
@@ -90,7 +94,8 @@ def term_case(c):
     from pygyro.advection.advection import PoloidalAdvection
     rng = random.Random(c['seed'])
     nprng = np.random.default_rng(c['seed'])
-    bq, br = _spaces(c['nq'], c['nr'], c['p'])
+    bq, br = _spaces(c['nq'], c['nr'], c['p'], pr=c.get('pr'))
+    pr_ = int(c.get('pr') or c['p'])
     q, r = bq.greville, br.greville
     adv = PoloidalAdvection([r, q, np.array([0.0]), np.array([0.0])], [bq, br], _Consts(), nulEdge=c['nul'],
                             explicitTrap=False, tol=c['tol'])
@@ -188,7 +193,8 @@ def float_case(c):
     from pygyro.advection.advection import PoloidalAdvection
     E, flags = shadow_numbers()
     nprng = np.random.default_rng(c['seed'])
-    bq, br = _spaces(c['nq'], c['nr'], c['p'])
+    bq, br = _spaces(c['nq'], c['nr'], c['p'], pr=c.get('pr'))
+    pr_ = int(c.get('pr') or c['p'])
     q, r = bq.greville, br.greville
     adv = PoloidalAdvection([r, q, np.array([0.0]), np.array([0.0])], [bq, br], _Consts(), nulEdge=True, explicitTrap=True)
     phi = Spline2D(bq, br)
@@ -201,7 +207,7 @@ def float_case(c):
     tabs = {'rPts': [ff(x) for x in adv._points[1]], 'qPts': [ff(x) for x in adv._points[0]],
             'kq': [ff(x) for x in bq.knots], 'kr': [ff(x) for x in br.knots],
             'cphi': [[ff(x) for x in row] for row in phi.coeffs], 'cpol': [[ff(x) for x in row] for row in adv._spline.coeffs],
-            'dt': ff(c['dt']), 'B0': ff(_Consts.B0), 'PI': ff(math.pi), 'cu': cu, 'p': c['p']}
+            'dt': ff(c['dt']), 'B0': ff(_Consts.B0), 'PI': ff(math.pi), 'cu': cu, 'p': c['p'], 'pr': pr_}
     # shadow run of the lifted kernel (exact value + running error bound)
     nu, cun = qlift.load('pygyro/splines/spline_eval_funcs.py'), qlift.load('pygyro/splines/cubic_uniform_spline_eval_funcs.py')
     ini = qlift.load('pygyro/initialisation/initialiser_funcs.py', extra={'exp': None, 'tanh': None, 'sqrt': None, 'pi': None})
@@ -225,8 +231,8 @@ def float_case(c):
     flags['ambig'] = False
     flags['ill'] = False
     advm['poloidal_advection_step_expl'](fs, E(tabs['dt']), E(F(0)), oa(tabs['rPts']), oa(tabs['qPts']), *W,
-                                         oa(tabs['kq']), oa(tabs['kr']), oa2(tabs['cphi']), c['p'], c['p'],
-                                         oa(tabs['kq']), oa(tabs['kr']), oa2(tabs['cpol']), c['p'], c['p'],
+                                         oa(tabs['kq']), oa(tabs['kr']), oa2(tabs['cphi']), c['p'], pr_,
+                                         oa(tabs['kq']), oa(tabs['kr']), oa2(tabs['cpol']), c['p'], pr_,
                                          *[E(F(1))] * 7, E(tabs['B0']), cu, True)
     ambig = flags['ambig'] or flags['ill']
     rmin, rmax = tabs['rPts'][0], tabs['rPts'][-1]
@@ -250,6 +256,7 @@ def model_on_tables(tabs, nodes_i, nodes_j):
     T = {k: ([[F(x) for x in row] for row in v] if k in ('cphi', 'cpol') else [F(x) for x in v] if isinstance(v, list) else v)
          for k, v in tabs.items()}
     p = int(T['p'])
+    pr = int(T.get('pr', p))
     cu = T['cu'] in (True, 'True')
     rsel = sorted(set([0] + list(nodes_j) + [len(T['rPts']) - 1]))
     qsel = sorted(set(nodes_i))
@@ -257,7 +264,7 @@ def model_on_tables(tabs, nodes_i, nodes_j):
     flat = lambda g: [x for row in g for x in row]
     nc = len(T['cphi'][0])
     line = 'pol.expl %d 1 %d %d %d %d %d %d %s %s %s %s | %s | %s | %s | %s | %s | %s | %s | %s | %s' % (
-        1 if cu else 0, p, p, nc, p, p, nc, qstr(F(T['PI'])), qstr(F(T['dt'])), qstr(F(0)), qstr(F(T['B0'])),
+        1 if cu else 0, p, pr, nc, p, pr, nc, qstr(F(T['PI'])), qstr(F(T['dt'])), qstr(F(0)), qstr(F(T['B0'])),
         ql([F(1)] * 7), ql([T['rPts'][j] for j in rsel]), ql([T['qPts'][i] for i in qsel]),
         ql(T['kq']), ql(T['kr']), ql(flat(T['cphi'])), ql(T['kq']), ql(T['kr']), ql(flat(T['cpol'])))
     return line, qsel, rsel
@@ -333,6 +340,10 @@ def run_float_stages(chk):
         fcases.append({'seed': rng.randint(1, 10 ** 6), 'nq': nq, 'nr': nr, 'p': [3, 2, 3, 4][k % 4],
                        'kind': ['random', 'smooth', 'quad'][k % 3], 'amp': rng.choice([0.05, 0.3, 1.0]),
                        'dt': rng.choice([0.1, -0.1, 0.5])})
+    # different spline degrees in theta and r (the constants file sets them per dimension)
+    for (pq_, pr2) in ((2, 4), (4, 2)) if quick else ((2, 4), (4, 2), (3, 2), (2, 3), (4, 5), (5, 4)):
+        fcases.append({'seed': rng.randint(1, 10 ** 6), 'nq': 8, 'nr': 8, 'p': pq_, 'pr': pr2, 'kind': rng.choice(['smooth', 'quad']),
+                       'amp': rng.choice([0.05, 0.3]), 'dt': rng.choice([0.1, -0.1])})
     fres = implrun.run_cases('props.c12_float', 'float_case', fcases, tmo=600.0, chunk=1)
     st = {'nodes_compared': 0, 'nodes_excluded_boundary': 0, 'cases_ambiguous': 0, 'worst_ratio': 0.0, 'model_nodes': 0}
     lines, wants = [], []
